@@ -759,6 +759,42 @@ def r17l(ctx):
                        f"round trip changes the value")
 
 
+def r17m(ctx):
+    """The emptiness test that decides a strip is the one the strip applies.
+
+    "Stripping removes only empty trailing rows and cells, is idempotent": Table.rstrip asks each row `is_empty(aggressive)` and, for the rows
+    it keeps, `rstrip(aggressive)`; Row asks each cell.  With `aggressive` a styled cell without value counts as empty.  The two levels agree
+    only if the flag travels all the way down: a level that asks the default question judges styled rows non-empty while the level below
+    removes all their cells — the strip leaves cell-less rows behind and a second call removes them (not idempotent).  Rule: every function
+    that has an `aggressive` parameter passes it to every callee that declares one (is_empty, rstrip, … of Table, Row and Cell).
+    """
+    repo = ctx.repo
+    ctx.rule("R17m", "the `aggressive` flag of the emptiness tests and strips is forwarded to every callee that takes it", floor=6)
+    byname: dict[str, list[FuncInfo]] = {}
+    for g in repo.all_funcs():
+        byname.setdefault(g.name, []).append(g)
+    n = 0
+    for f in repo.all_funcs():
+        if "aggressive" not in {a.arg for a in f.all_params()}:
+            continue
+        for c in walk_no_nested(f.node):
+            if not isinstance(c, ast.Call):
+                continue
+            cands = [g for g in byname.get(call_name(c), []) if "aggressive" in {a.arg for a in g.all_params()} and g.cls is not None and g.cls.name in ("Table", "Row", "Cell")]
+            if not cands or not isinstance(c.func, ast.Attribute):
+                continue
+            n += 1
+            fw = [k.value for k in c.keywords if k.arg == "aggressive"] + [a for a in c.args if isinstance(a, ast.Name) and a.id == "aggressive"]
+            ok = any(isinstance(v, ast.Name) and v.id == "aggressive" for v in fw)
+            ctx.instance("R17m", f"{f.file}:{f.ident}", f"{norm(c, 50)}: flag forwarded", ok=ok, nontrivial=True, line=c.lineno)
+            if not ok:
+                ctx.report("R17m", f, c, norm(c, 50),
+                           f"{f.ident} takes `aggressive` but asks `{norm(c, 40)}` without it: this level judges by the default rule while the level below strips by the flag — rows made of "
+                           f"styled empty cells are kept by Table.rstrip(aggressive=True) and emptied by Row.rstrip, so a second call removes more (not idempotent)")
+    if n < 6:
+        raise AnalysisError(f"R17m: only {n} call(s) that should forward `aggressive` found")
+
+
 def run(ctx):
     tom = run_tom(ctx.repo)
     r17abc(ctx)
@@ -771,6 +807,7 @@ def run(ctx):
     r17j(ctx)
     r17k(ctx)
     r17l(ctx)
+    r17m(ctx)
     # span and area operations write back through Table.set_cells / set_row: a row copy that still carries a repeat count is written N times
     # (the one-row-only obligation R01a of C01 is a necessary condition here too)
     from .c01 import r01a
@@ -789,6 +826,8 @@ from ..selftest import Seed, unparse_seed  # noqa: E402
 _T = "src/odfdo/table.py"
 _R = "src/odfdo/row.py"
 SEEDS = [
+    Seed("Row.is_empty asks its cells the default question", "fault", _R,
+         "        return all(cell.is_empty(aggressive=aggressive) for cell in self._get_cells())", "        return all(cell.is_empty() for cell in self._get_cells())", "R17m"),
     Seed("the CSV importer tries numbers only on plain decimal text", "fault", _T,
          "    # An int ?\n    try:\n        return int(data)\n    except ValueError:\n        pass\n    # A float ?\n    try:\n        return float(data)\n    except ValueError:\n        pass\n",
          "    if re.match(r\"^[+-]?\\d+(\\.\\d*)?$\", data):\n        try:\n            return int(data)\n        except ValueError:\n            pass\n        try:\n            return float(data)\n        except ValueError:\n            pass\n", "R17l"),
